@@ -10,6 +10,7 @@ mod params;
 mod props;
 mod reward;
 mod runner;
+mod token;
 mod unbondlc;
 
 use runner::Tier;
@@ -63,7 +64,8 @@ fn main() {
                     let txt = std::fs::read_to_string(&path).unwrap_or_default();
                     let v: serde_json::Value = serde_json::from_str(&txt).unwrap_or_default();
                     let scen = v["scenario"].as_str().unwrap_or("").to_string();
-                    if chk.jobs.iter().any(|j| j.name() == scen) {
+                    let seed = v["seed"].as_str().unwrap_or("").to_string();
+                    if chk.jobs.iter().any(|j| j.name() == scen && j.has_seed(&seed)) {
                         code = runner::run_replay(chk, &path);
                         break;
                     }
